@@ -1,8 +1,54 @@
-"""C03 — scheduler family; shared stream in sched.py"""
+"""C03 — scheduler family (shared stream in sched.py) + a real-process stream for the command line of retried steps"""
+import json, subprocess
 import common, sched
 
 PROP = "C03"
 
 
+def argv_stream(chk):
+    """real `sh` through the real scheduler (log-area harness): a step given in string form or array form, with or without
+    `script:`, fails its first k attempts and is retried; every attempt must run the same command (so the retry can succeed),
+    exactly fails+1 attempts are made and the recorded retry count says so"""
+    binp, out = common.build_harness("log")
+    if not binp:
+        chk.oblige("harness-build:log", False, out[-3000:]); return
+    cases, k = [], 0
+    for arr in (False, True):
+        for sc in (False, True):
+            for limit, fails in ((1, 1), (2, 1), (2, 2), (1, 0), (0, 0), (1, 2)):
+                atts = [[{"e": False, "n": 10 + a}] for a in range(min(fails, limit) + 1)]
+                cases.append({"id": "v%d" % k, "so": False, "se": False, "ou": False, "sc": sc, "arr": arr, "limit": limit, "fails": fails,
+                              "attempts": atts, "done": chk.rng.random() < 0.5, "timeout": 30})
+                k += 1
+    p = subprocess.run([binp], input="\n".join(json.dumps(c) for c in cases) + "\n", stdout=subprocess.PIPE, stderr=subprocess.PIPE, text=True, timeout=600)
+    res = {}
+    for l in p.stdout.strip().split("\n"):
+        if l.strip():
+            try:
+                r = json.loads(l); res[r["id"]] = r
+            except Exception:
+                pass
+    st = {"cases": 0, "array_form": 0, "with_script": 0, "retried": 0}
+    for c in cases:
+        r = res.get(c["id"])
+        if r is None:
+            chk.oblige("harness-run:argv:" + c["id"], False, p.stderr[-400:]); continue
+        chk.evaluations += 1; st["cases"] += 1; st["array_form"] += c["arr"]; st["with_script"] += c["sc"]; st["retried"] += c["fails"] > 0
+        chk.nontrivial.add("argv%s" % json.dumps([c["arr"], c["sc"], c["limit"], c["fails"]]))
+        want_runs = min(c["fails"], c["limit"]) + 1
+        want_status = "failed" if c["fails"] > c["limit"] else "finished"
+        form = ("array-form" if c["arr"] else "string-form") + ("-command-with-script" if c["sc"] else "-command")
+        if r.get("status") != want_status:
+            chk.violation("C03:retried-step-cannot-succeed:" + form if want_status == "finished" else "C03:wrong-final-state-of-retried-step:" + form,
+                          "%s, retry limit %d, fails its first %d attempts: final state %r after %s attempts, expected %r after %d" % (
+                              form, c["limit"], c["fails"], r.get("status"), r.get("attempts_run"), want_status, want_runs), {"argv_case": c})
+        elif r.get("attempts_run") != want_runs:
+            chk.violation("C03:wrong-number-of-attempts:" + form, "%d attempts run, expected %d" % (r.get("attempts_run"), want_runs), {"argv_case": c})
+    chk.stats["argv_stream"] = st
+
+
 def run(chk, replay):
+    if replay and "argv_case" in json.load(open(replay)).get("case", {}):
+        argv_stream(chk); return
     sched.run_property(chk, PROP, replay)
+    argv_stream(chk)
